@@ -375,6 +375,14 @@ impl<T: CountMinValue> CountMinSketch<T> {
         }
 
         let entries = entries_for_config_checked(num_hashes, num_buckets)?;
+        if (flags & FLAGS_IS_EMPTY) == 0 {
+            // The total weight and every counter must be present before the table is allocated.
+            let header_size = PREAMBLE_LONGS_SHORT as usize * LONG_SIZE_BYTES;
+            let payload_size = (entries + 1) * LONG_SIZE_BYTES;
+            if bytes.len() < header_size + payload_size {
+                return Err(Error::insufficient_data("counts"));
+            }
+        }
         let mut sketch = Self::make(num_hashes, num_buckets, seed, entries);
         if (flags & FLAGS_IS_EMPTY) != 0 {
             return Ok(sketch);
